@@ -6,7 +6,7 @@ from vf.flo import gen, prog as P
 LEVEL = "exploration"
 RULE = ("seeded random frame forests (nesting via in, primary-child overrides via under, several children) with transitions to "
         "self / ancestor / descendant / other subtree, plain and conditional auxiliaries, stop/abort/start bids at generated "
-        "ticks; every framer is checked after every top-level run and at every tick end; distinct = distinct program text; "
+        "ticks; every framer is checked after every top-level run and at every tick end; every program with a singly used auxiliary framer is also run with that framer turned into a clone of a moot framer (gen.cloneify); distinct = distinct program text; "
         "non-trivial = the program changed some framer's active outline at least 3 times")
 META = {"engine": "A floscript", "technique": "invariant at a hook: AST-derived outline vs live .actives / state shares after every run",
         "level_text": "After every scheduler send and at each tick boundary the live active-frame list, the active/human state shares and "
